@@ -1,6 +1,7 @@
 import Chewing.Proofs.WalkEntries
 /-!
-Refutation witnesses for the traversal theorems on the unchanged tree (known findings F16, F17).
+Witnesses of the former findings F16, F17 (repaired: `validate_index` rejects these tables, `Props/C12.lean: witnesses_rejected`): what the
+traversals do on an index table that has NOT passed the validation.
 -/
 namespace Chewing.TrieWalk
 
